@@ -68,6 +68,11 @@ def int_to_roman(num: int) -> str:
             yield '-'
             value = abs(value)
 
+        if value >= 1000000:
+            # Out of the range supported for Roman numerals: fall back to decimal format
+            yield str(value)
+            return
+
         for base, roman in ROMAN_NUMERALS_MAP.items():
             if value:
                 yield roman * (value // base)
